@@ -16,6 +16,8 @@ LEVEL = "model_checking"
 SPEC = os.path.join(vf.ROOT, "spec", "Export")
 INVS = ["Converges", "NoStaleRoute", "IdsOK"]
 RANK = {"s1": 2, "s2": 3, "o": 1}
+# scenario -> (ranking, sources split horizon keeps from the observer): see ex_new_source in harness/daemon/event.rs
+SCEN = {"ebgp": (RANK, []), "ibgp": ({"s1": 1, "o": 2, "s2": 3}, ["s2"]), "rs": (RANK, ["s2"])}
 
 
 def ts(xs):
@@ -28,12 +30,13 @@ def materialise(name, k, spec, invs, base, constraint=True):
     for f in ("Export.tla", "ExportMC.tla"):
         with open(os.path.join(SPEC, f)) as src, open(os.path.join(d, f), "w") as dst:
             dst.write(src.read())
-    arms = " [] ".join(f'x = "{x}" -> {RANK[x]}' for x in k["src"])
+    rank, suppress = SCEN[k.get("scen", "ebgp")]
+    arms = " [] ".join(f'x = "{x}" -> {rank[x]}' for x in k["src"])
     with open(os.path.join(d, f"MC_{name}.tla"), "w") as f:
         f.write(f"---- MODULE MC_{name} ----\nEXTENDS {base}\ncRank == [x \\in {ts(k['src'])} |-> CASE {arms}]\n====\n")
     cfgp = os.path.join(d, "run.cfg")
     with open(cfgp, "w") as f:
-        f.write(f"CONSTANTS\n  Prefix = {ts(k['prefix'])}\n  Src = {ts(k['src'])}\n  SrcRank <- cRank\n  Obs = \"{k['obs']}\"\n"
+        f.write(f"CONSTANTS\n  Prefix = {ts(k['prefix'])}\n  Src = {ts(k['src'])}\n  SrcRank <- cRank\n  Obs = \"{k['obs']}\"\n  Suppress = {ts([x for x in suppress if x in k['src']])}\n"
                 f"  Cls = {ts(k['cls'])}\n  Reject = {ts(k.get('reject', []))}\n  SendMax = {k['sendmax']}\n  MaxChan = {k['maxchan']}\n"
                 f"  OpKinds = {ts(k.get('ops', []))}\n"
                 f"  LidMode = \"{k.get('lid', 'abstract')}\"\n  Dev = {ts(k.get('dev', []))}\n"
@@ -48,7 +51,7 @@ def line(op):
         return f"announce {op['src']} {op['p']} {op['cls']}"
     if k in ("withdraw", "filter"):
         return f"{k} {op['src']} {op['p']}"
-    if k in ("peerdown", "markllgr"):
+    if k in ("peerdown", "markllgr", "nhdown", "nhup", "softin"):
         return f"{k} {op['src']}"
     return k
 
@@ -94,7 +97,8 @@ def run_harness(tag, seqs):
         for sq in seqs:
             sid, sendmax, ops = sq[0], sq[1], sq[2]
             reject = sq[3] if len(sq) > 3 and sq[3] else "-"
-            f.write(f"seq {sid} {sendmax} {reject}\n")
+            scen = sq[4] if len(sq) > 4 else "ebgp"
+            f.write(f"seq {sid} {sendmax} {reject} {scen}\n")
             for o in ops:
                 f.write(o + "\n")
     if os.path.exists(outp):
@@ -129,14 +133,23 @@ def main(c):
     designs = [("d1", {"prefix": ["p1", "p2"], "src": ["s1", "o"], "obs": "o", "cls": ["x"], "sendmax": 1, "maxchan": 2}),
                # with an export policy that rejects class y: "filtered" and "replaced by a non-exportable best"
                ("d5", {"prefix": ["p1"], "src": ["s1", "s2", "o"], "obs": "o", "cls": ["x", "y"], "reject": ["y"], "sendmax": 2, "maxchan": 2}),
-               # with announcements the IMPORT policy rejects (the path leaves the ranking but keeps destination and path id)
-               ("d8", {"prefix": ["p1"], "src": ["s1", "s2", "o"], "obs": "o", "cls": ["x"], "ops": ["filter"], "sendmax": 2, "maxchan": 2})]
+               # (d8, thorough: announcements the IMPORT policy rejects - the path leaves the ranking but keeps destination and path id)
+               # next-hop flaps, and a source that split horizon hides from the observer (the best path can be replaced by a
+               # non-exportable one without any policy)
+               ("d9", {"prefix": ["p1"], "src": ["s1", "s2"], "obs": "o", "cls": ["x"], "ops": ["nhflap"], "scen": "ibgp", "sendmax": 1, "maxchan": 2}),
+               ("d10", {"prefix": ["p1"], "src": ["s1", "s2"], "obs": "o", "cls": ["x"], "ops": ["nhflap"], "scen": "ibgp", "sendmax": 2, "maxchan": 2}),
+               # the import policy changes and a soft reset IN re-evaluates a source's paths
+               ("d11", {"prefix": ["p1"], "src": ["s1", "s2"], "obs": "o", "cls": ["x", "y"], "ops": ["softin"], "sendmax": 1, "maxchan": 2})]
     if thorough:
         designs += [("d2", {"prefix": ["p1"], "src": ["s1", "s2", "o"], "obs": "o", "cls": ["x", "y"], "sendmax": 2, "maxchan": 2}),
                     ("d7", {"prefix": ["p1", "p2"], "src": ["s1", "o"], "obs": "o", "cls": ["x"], "ops": ["filter"], "sendmax": 1, "maxchan": 2}),
                     ("d6", {"prefix": ["p1", "p2"], "src": ["s1", "s2"], "obs": "o", "cls": ["x", "y"], "reject": ["y"], "sendmax": 1, "maxchan": 2}),
                     ("d3", {"prefix": ["p1", "p2"], "src": ["s1", "s2", "o"], "obs": "o", "cls": ["x"], "sendmax": 2, "maxchan": 2}),
-                    ("d4", {"prefix": ["p1", "p2"], "src": ["s1", "s2"], "obs": "o", "cls": ["x", "y"], "sendmax": 1, "maxchan": 3})]
+                    ("d4", {"prefix": ["p1", "p2"], "src": ["s1", "s2"], "obs": "o", "cls": ["x", "y"], "sendmax": 1, "maxchan": 3}),
+                    ("d8", {"prefix": ["p1"], "src": ["s1", "s2", "o"], "obs": "o", "cls": ["x"], "ops": ["filter"], "sendmax": 2, "maxchan": 2}),
+                    ("d11b", {"prefix": ["p1"], "src": ["s1", "s2"], "obs": "o", "cls": ["x", "y"], "ops": ["softin"], "sendmax": 2, "maxchan": 2}),
+                    ("d12", {"prefix": ["p1"], "src": ["s1", "s2", "o"], "obs": "o", "cls": ["x", "y"], "ops": ["softin"], "scen": "ibgp", "sendmax": 2, "maxchan": 2}),
+                    ("d13", {"prefix": ["p1", "p2"], "src": ["s1", "s2"], "obs": "o", "cls": ["x"], "ops": ["nhflap"], "scen": "ibgp", "sendmax": 1, "maxchan": 2})]
     for name, k in designs:
         d, m, cfgp = materialise(name, k, "Spec", INVS, "Export")
         r = vf.tlc(d, m, cfgp, workers=12, timeout=1500, heap="12g")
@@ -160,7 +173,16 @@ def main(c):
     walks_cfg = [("w1", {"prefix": ["p1", "p2"], "src": ["s1", "s2", "o"], "obs": "o", "cls": ["x", "y"], "sendmax": 1, "maxchan": 3}),
                  ("w2", {"prefix": ["p1", "p2"], "src": ["s1", "s2", "o"], "obs": "o", "cls": ["x", "y"], "sendmax": 2, "maxchan": 3}),
                  ("w3", {"prefix": ["p1", "p2"], "src": ["s1", "s2", "o"], "obs": "o", "cls": ["x", "y"], "reject": ["y"], "ops": ["filter"], "sendmax": 1, "maxchan": 3}),
-                 ("w4", {"prefix": ["p1", "p2"], "src": ["s1", "s2", "o"], "obs": "o", "cls": ["x", "y"], "reject": ["y"], "ops": ["filter"], "sendmax": 2, "maxchan": 3})]
+                 ("w4", {"prefix": ["p1", "p2"], "src": ["s1", "s2", "o"], "obs": "o", "cls": ["x", "y"], "reject": ["y"], "ops": ["filter"], "sendmax": 2, "maxchan": 3}),
+                 # an internal (non-client) observer, an internal source hidden by split horizon, next-hop flaps
+                 ("w5", {"prefix": ["p1", "p2"], "src": ["s1", "s2", "o"], "obs": "o", "cls": ["x", "y"], "ops": ["nhflap", "filter"], "scen": "ibgp", "sendmax": 1, "maxchan": 3}),
+                 ("w6", {"prefix": ["p1", "p2"], "src": ["s1", "s2", "o"], "obs": "o", "cls": ["x", "y"], "reject": ["y"], "ops": ["nhflap"], "scen": "ibgp", "sendmax": 2, "maxchan": 3}),
+                 # a route-server client observing: the plain external source stays behind the route-server boundary
+                 ("w7", {"prefix": ["p1", "p2"], "src": ["s1", "s2", "o"], "obs": "o", "cls": ["x", "y"], "ops": ["nhflap"], "scen": "rs", "sendmax": 1, "maxchan": 3}),
+                 ("w8", {"prefix": ["p1", "p2"], "src": ["s1", "s2", "o"], "obs": "o", "cls": ["x", "y"], "ops": ["nhflap", "filter"], "scen": "rs", "sendmax": 2, "maxchan": 3}),
+                 # import-policy changes followed (or not) by soft resets IN
+                 ("w9", {"prefix": ["p1", "p2"], "src": ["s1", "s2", "o"], "obs": "o", "cls": ["x", "y"], "ops": ["softin", "filter"], "sendmax": 1, "maxchan": 3}),
+                 ("w10", {"prefix": ["p1", "p2"], "src": ["s1", "s2", "o"], "obs": "o", "cls": ["x", "y"], "ops": ["softin", "nhflap"], "scen": "ibgp", "sendmax": 2, "maxchan": 3})]
     nwalks, depth = (1500, 30) if thorough else (500, 25)
     allw = []
     hseqs = []
@@ -186,7 +208,7 @@ def main(c):
             sid = f"{name}/{si}"
             nd = w[-1]["chan"]
             hseqs.append((sid, k["sendmax"], [line(stp["op"]) for stp in w] + ["deliver"] * nd + ["flush", "fresh"],
-                          (k.get("reject") or [None])[0]))
+                          (k.get("reject") or [None])[0], k.get("scen", "ebgp")))
             allw.append((sid, k, w, nd))
         c.cov["parts"]["walks-" + name] = {"walks": len(walks), "constants": k}
     got = run_harness("walks", hseqs)
@@ -204,7 +226,7 @@ def main(c):
             distinct.add(vf.canon(stp["op"]) + "|" + vf.canon(mset(stp["mirror"])) + "|" + str(stp["chan"]))
             real = rset(j["state"]["mirror"])
             if j["note"]:
-                bad = ("export.harness", {"step": i, "op": stp["op"], "note": j["note"]})
+                bad = ("export.panic" if "PANIC" in j["note"] else "export.harness", {"step": i, "op": stp["op"], "note": j["note"]})
                 break
             if not matches(stp["mirror"], real):
                 bad = ("export.mirror", {"step": i, "op": stp["op"], "expected": mset(stp["mirror"]), "actual": real,
